@@ -62,7 +62,42 @@ type result struct {
 	CallerPid      int    `json:"caller_pid"`
 }
 
+// caller2 runs two Launch calls that overlap inside ONE process: the first daemon is held
+// before Done() (its directory contains daemon.hold), the second Launch starts once the first
+// daemon is running and goes through completely, then the first daemon is released.
+func caller2(dirA, dirB string) {
+	type out struct {
+		pid int
+		err error
+	}
+	resA := make(chan out, 1)
+	os.Setenv("GLB_VERIF_PAUSE_DIR", dirA)
+	go func() {
+		pid, err := daemon.Launch(name)
+		resA <- out{pid, err}
+	}()
+	// the first Launch has certainly read the environment once its daemon is running
+	for i := 0; i < 60000; i++ {
+		if _, err := os.Stat(filepath.Join(dirA, "daemon.started")); err == nil {
+			break
+		}
+		time.Sleep(time.Millisecond)
+	}
+	os.Setenv("GLB_VERIF_PAUSE_DIR", dirB)
+	pidB, errB := daemon.Launch(name)
+	os.WriteFile(filepath.Join(dirA, "daemon.release"), nil, 0o644)
+	a := <-resA
+	r := map[string]any{"pidA": a.pid, "errA": fmt.Sprint(a.err), "pidB": pidB, "errB": fmt.Sprint(errB), "caller_pid": os.Getpid()}
+	data, _ := json.Marshal(r)
+	os.WriteFile(filepath.Join(dirA, "result2.json.tmp"), data, 0o644)
+	os.Rename(filepath.Join(dirA, "result2.json.tmp"), filepath.Join(dirA, "result2.json"))
+}
+
 func main() {
+	if len(os.Args) == 4 && os.Args[1] == "caller2" {
+		caller2(os.Args[2], os.Args[3])
+		return
+	}
 	if len(os.Args) < 2 || os.Args[1] != "caller" {
 		fmt.Fprintln(os.Stderr, "usage: proc caller   (with GLB_VERIF_PAUSE_DIR set)")
 		os.Exit(2)
